@@ -143,9 +143,10 @@ TEXTS = {
     "C11": {
         "text": "Theorems (Properties/C11.v): about the Gallina transcription of distance_to_ancestor, for every ontology with exact ancestor "
                 "caches and every fuel — the returned distance is the length of an actual chain of parent links, no chain is shorter, the "
-                "cache-based pruning never cuts a reachable target, None iff the target is neither the term nor an ancestor; and about the "
-                "reference distance sd used by the executable statement (a chain length, minimal over all chains; chains are walks). "
-                "PARTIAL: path_to_ancestor / distance_to_term / path_to_term have no transcription-level theorem yet; spec_C11 compares every "
+                "cache-based pruning never cuts a reachable target, None iff the target is neither the term nor an ancestor; path_to_ancestor "
+                "returns a chain of parent links ending in the target, of minimal length; and about the reference distance sd used by the "
+                "executable statement (a chain length, minimal over all chains; chains are walks). "
+                "PARTIAL: distance_to_term / path_to_term have no transcription-level theorem yet; spec_C11 compares every "
                 "distance the crate reports with sd over the reported parent links, distance_to_term with the minimum over common ancestors, "
                 "and checks every reported path link by link (a walk of exactly the reported distance); the transcription of the four queries "
                 "is diffed against the crate on ALL ordered pairs of each generated ontology and on selected pairs of 70-130-term chains.",
@@ -160,12 +161,15 @@ TEXTS = {
         "design_ref": "DESIGN.md §4 C13", "note": NOTE_COMMON, "technique": TECH,
     },
     "C14": {
-        "text": "Theorems (Properties/C14.v): a term accepted by the retained-term test lies on a shortest leaf-root chain (chains exhibited, "
-                "minimality over all chains); a result passing closure_ok is again an exact transitive closure. spec_C14 states retained set, "
-                "induced links, copied names/flags, preserved distances, refusal iff a leaf is outside the subtree, the annotation filter, and "
-                "re-runs the executable statements of C01-C03 on the result; evaluated on the crate's observation; the Gallina transcription "
-                "of sub_ontology is diffed against the crate.",
-        "design_ref": "DESIGN.md §4 C14", "note": NOTE_COMMON, "technique": TECH,
+        "text": "Theorems (Properties/C14.v): about the Gallina transcription of sub_ontology — the retained ids are exactly every leaf plus "
+                "the path path_to_ancestor chose from it to the root; every retained term lies on a SHORTEST chain of parent links from some "
+                "leaf to the root (via the path_to_ancestor theorems of C11); the call is refused with NotImplemented exactly because some "
+                "leaf has no path to the root; and about the executable statement — a term accepted by the retained-term test lies on a "
+                "shortest leaf-root chain, a result passing closure_ok is again an exact transitive closure. PARTIAL: induced links and the "
+                "annotation filter of the transcription have no theorem; spec_C14 states retained set, induced links, copied names/flags, "
+                "preserved distances, refusal iff a leaf is outside the subtree, the annotation filter, and re-runs the executable statements "
+                "of C01-C03 on the result, evaluated on the crate's observation; the transcription is diffed against the crate.",
+        "design_ref": "DESIGN.md §4 C14, §9", "note": NOTE_COMMON, "technique": TECH,
     },
     "C17": {
         "text": "Theorems (Properties/C17.v): soundness of the replay spec_C17 runs on the crate's reported merges — an accepted merge list IS "
